@@ -40,7 +40,14 @@ let run path =
       let ms = L.sort compare (L.map int_of_n mids) in
       let is = L.map int_of_string ids in
       if ms <> is then begin incr bad;
-        Printf.printf "diff conc start=%s total=%s ids handed out concurrently are not the model's window\n" s total end
+        (* property clause on the implementation's own observation: non-zero, pairwise distinct within 65535 allocations *)
+        let rec dup = function a :: (b :: _ as t) -> if a = b then Some a else dup t | _ -> None in
+        let zero = L.mem 0 is in
+        (match dup is, zero with
+         | Some d, _ when L.length is <= 65535 ->
+           Printf.printf "propfail conc start=%s total=%s id %d handed out twice to concurrent callers\n" s total d
+         | _, true -> Printf.printf "propfail conc start=%s total=%s id 0 handed out to a concurrent caller\n" s total
+         | _ -> Printf.printf "diff conc start=%s total=%s ids handed out concurrently are not the model's window\n" s total) end
     | "hist" :: k :: ops -> Hashtbl.replace hists k ops
     | "impl" :: k :: outs ->
       incr n;
